@@ -1,9 +1,9 @@
 package checks
 
 import (
-	"strings"
 	"bytes"
 	"fmt"
+	"strings"
 	"sync"
 	"sync/atomic"
 	"time"
@@ -69,38 +69,22 @@ func c06Body(g gen.G, id uint16, v2019 bool, phone string) []byte {
 		return z(37 + g.Intn(10))
 	case 0x0102:
 		auth := phone
-		switch g.Intn(6) {
-		case 0:
-			auth = phone + "x"
-		case 1:
-			auth = "0" + phone
-		case 2:
-			// near misses of the right code: padded, trimmed, re-cased, one digit off (all of them are WRONG codes: result 1)
-			pads := []string{"\x00", "\x00\x00", " ", "\n", "\t", "\xff", "0"}
-			switch g.Intn(6) {
-			case 0:
-				auth = phone + pads[g.Intn(len(pads))]
-			case 1:
-				auth = pads[g.Intn(len(pads))] + phone
-			case 2:
-				if len(phone) > 1 {
-					auth = phone[:len(phone)-1]
+		if strings.ToUpper(phone) != phone && g.Chance(1, 3) {
+			// a phone with hex letters: the same letters in upper or mixed case are a WRONG code
+			b := []byte(strings.ToUpper(phone))
+			if g.Bool() {
+				for i := range b {
+					if g.Bool() {
+						b[i] = phone[i]
+					}
 				}
-			case 3:
-				if len(phone) > 1 {
-					auth = phone[1:]
+				if string(b) == phone {
+					b = []byte(strings.ToUpper(phone))
 				}
-			case 4:
-				b := []byte(phone)
-				i := g.Intn(len(b))
-				b[i] ^= []byte{0x01, 0x10, 0x20, 0x80}[g.Intn(4)]
-				auth = string(b)
-				if up := strings.ToUpper(phone); up != phone && g.Bool() {
-					auth = up // the same letters in upper case
-				}
-			default:
-				auth = ""
 			}
+			auth = string(b)
+		} else {
+			auth = c06Auth(g, phone)
 		}
 		if v2019 {
 			b := append([]byte{byte(len(auth))}, auth...)
@@ -142,6 +126,45 @@ func c06Body(g gen.G, id uint16, v2019 bool, phone string) []byte {
 		return z(3)
 	}
 	return z(g.Intn(20))
+}
+
+// c06Auth: an authentication code for this phone: the right one (the phone string) or a wrong one, near misses included.
+func c06Auth(g gen.G, phone string) string {
+	auth := phone
+	switch g.Intn(6) {
+	case 0:
+		auth = phone + "x"
+	case 1:
+		auth = "0" + phone
+	case 2:
+		// near misses of the right code: padded, trimmed, re-cased, one digit off (all of them are WRONG codes: result 1)
+		pads := []string{"\x00", "\x00\x00", " ", "\n", "\t", "\xff", "0"}
+		switch g.Intn(6) {
+		case 0:
+			auth = phone + pads[g.Intn(len(pads))]
+		case 1:
+			auth = pads[g.Intn(len(pads))] + phone
+		case 2:
+			if len(phone) > 1 {
+				auth = phone[:len(phone)-1]
+			}
+		case 3:
+			if len(phone) > 1 {
+				auth = phone[1:]
+			}
+		case 4:
+			b := []byte(phone)
+			i := g.Intn(len(b))
+			b[i] ^= []byte{0x01, 0x10, 0x20, 0x80}[g.Intn(4)]
+			auth = string(b)
+			if up := strings.ToUpper(phone); up != phone && g.Bool() {
+				auth = up // the same letters in upper case
+			}
+		default:
+			auth = ""
+		}
+	}
+	return auth
 }
 
 var c06IDs = []uint16{0x0002, 0x0100, 0x0102, 0x0200, 0x0704, 0x0800, 0x0801, 0x1003, 0x1005, 0x1210, 0x1211, 0x1212,
